@@ -209,6 +209,7 @@ PROPS = {
         "units": [
             plain("c05", "TestReplayScenarios"),
             plain("c05", "TestReplayStartTLSPipelining"),
+            plain("c05", "TestReplaySlowIdle"),
             rapid("c05", "TestPropStateMachine", quick=(900, 8), thorough=(8000, 14), shrinktime="20s"),
         ],
     },
